@@ -4,7 +4,7 @@ from contextvars import ContextVar
 
 from .interpret import Immediate, Interactor, Total
 from .selector import check_element, select, verify
-from .transform import SyncedStackedTransforms, transform
+from .transform import StackedTransforms, SyncedStackedTransforms, transform
 from .utils import autocreate, is_tooled, keyword_decorator
 
 # Cache whether functions match selectors
@@ -417,7 +417,12 @@ def _tooler(fn, captures):
     else:
         st = fn.__ptera_stack__ = SyncedStackedTransforms(fn, proceed=proceed)
 
-    st.push(captures)
+    try:
+        st.push(captures)
+    except BaseException:
+        # The function cannot be transformed: undo the bookkeeping of push
+        StackedTransforms.pop(st, captures)
+        raise
     return fn
 
 
